@@ -608,6 +608,11 @@ func (env Env) evalFunc(x Func) Outcome {
 				}
 			}
 			return OF
+		case setType(p.v.T) && p.v.T == o.v.T:
+			// a set operand against a set attribute: the implementation treats
+			// it as a subset test (pinned by its own tests); what DynamoDB does
+			// is not certain to this model - not asserted
+			return OT | OF | OE
 		}
 		return OF | OE
 	}
